@@ -8,6 +8,6 @@
 //@@ include udiffhdr.rs
 //@@ props ^DiffOp::|^Change:: : C13
 //@@ props ^Capture::|^DiffHook for Capture::|^lemma_apply_capture|^lemma_evs_of : C13
-//@@ props ^ChangesIter::|^AllChangesIter:: : C13
+//@@ props ^ChangesIter::|^AllChangesIter:: : C13 C04
 //@@ props ^UnifiedHunkHeader::|^UnifiedDiffHunkRange::|^lemma_hunk_counts$|^lemma_header_counts$|^lemma_count_ : C05
 fn main() {}
